@@ -97,8 +97,8 @@ class Atom(Kind):
 class Rec(Kind):
     """Immutable record (namedtuple-like) as an uninterpreted sort with field functions."""
 
-    def __init__(self, name, **fields):
-        self.name = name
+    def __init__(self, _rec_name, **fields):
+        self.name = _rec_name
         self.fields = fields
 
     def sort(self):
